@@ -382,7 +382,9 @@ class Matcher:
             if lo > 0 and ctx.feasible(total < lo):
                 if not ctx.feasible(total >= lo):
                     return None
-                raise Undetermined('repeat minimum over segments of unknown length')
+                # case split on the path condition: the run is long enough, or the item fails here
+                if not ctx.decide(V_mk_bool(total >= lo)):
+                    return None
         # greedy: longest first
         for idx in range(len(stops) - 1, -1, -1):
             q, crossed = stops[idx]
